@@ -555,6 +555,13 @@ class World:
                 junk = [pt.ScratchSlot() for _ in range(n)]
             elif w == "vars":
                 junk = [pt.ScratchVar(pt.TealType.uint64) for _ in range(n)]
+            elif w == "slots_until":
+                # unrelated allocation until the process-wide slot-id counter reaches n
+                junk = []
+                guard = 0
+                while int(getattr(ScratchSlot, "nextSlotId", n)) < n and guard < 1_100_000:
+                    pt.ScratchSlot()
+                    guard += 1
             elif w == "abi":
                 junk = [pt.abi.Uint64() for _ in range(n)]
             elif w == "decls":
